@@ -299,6 +299,7 @@ func main() {
 	kinds := map[string]int{}
 	for _, b := range behs {
 		replay(b, res)
+		kit.CloseAll()
 		for _, s := range b.Steps {
 			kinds[vh.Str(s.Act, "name")+"/"+vh.Str(s.Act, "kind")]++
 		}
